@@ -7,8 +7,10 @@ Import ListNotations.
 
 (** The frame theorem.  For EVERY semantics of the primitives (psem: any function from the visible
     fill and the popped arguments to outputs-or-failure), every function table, every tree that
-    satisfies the invariant [tree_okb] (stored operand signatures are the checker's; validated on real
-    compiler output on every run), every fuel and every run-time state whose stack holds at least
+    satisfies the invariant [tree_okb] (stored operand signatures are the checker's - exactly so where
+    the run-time form reads them while the checker re-infers: by, rows, each, inventory, repeat;
+    operands of iterating modifiers and switch branches leave the hidden context stack alone; every
+    switch branch fits the switch's signature; validated on real compiler output on every run), every fuel and every run-time state whose stack holds at least
     [sa sg] values: the run either fails or consumes exactly the top [sa sg] values, produces
     [so sg], leaves everything beneath untouched (on the stack and on the hidden context stack), and
     restores the fill stack, the fill boundaries and the call depth.  At a failure point the values
@@ -70,6 +72,21 @@ Example C02_nonvacuous :
                 Mod MTry [(Sig 0 0 0 0, Run [Push (SInt 0); Push (SOpq 9); Prim 12 2 0]); (Sig 1 1 0 0, Prim 8 1 1)]] in
   asm_okb asm = true /\ tree_okb asm n = true /\ node_sig n = Some (Sig 0 2 0 0) /\
   zrun 50 asm n = (0%N, [(-13)%Z; 42%Z], 0%N).
+Proof. vm_compute. repeat split; reflexivity. Qed.
+
+(** non-vacuity for the iterating constructs: rows, repeat (count 2), by and a switch meet the
+    premises and are run by the model: ≡+ 3 4 = 7, twice +1 = 9, ⊸¯ keeps 9 beneath ¯9, the switch
+    takes branch 1 (absolute value) *)
+Example C02_nonvacuous_iter :
+  let n := Run [Push (SInt 3); Push (SInt 4);
+                Mod MRows [(Sig 2 1 0 0, Prim 5 2 1)];
+                Push (SInt 2);
+                Mod MRepeat [(Sig 1 1 0 0, Run [Push (SInt 1); Prim 5 2 1])];
+                Mod MBy [(Sig 1 1 0 0, Prim 8 1 1)];
+                Push (SInt 1);
+                Switch [(Sig 1 1 0 0, Prim 8 1 1); (Sig 1 1 0 0, Prim 19 1 1)] (Sig 1 1 0 0) false] in
+  asm_okb [] = true /\ tree_okb [] n = true /\ node_sig n = Some (Sig 0 2 0 0) /\
+  zrun 50 [] n = (0%N, [9%Z; 9%Z], 0%N).
 Proof. vm_compute. repeat split; reflexivity. Qed.
 
 Print Assumptions C02_sig_sound.
